@@ -10,7 +10,7 @@ from ..core import AnalysisError, norm, short
 from ..setalg import Universe, SetInterp, Opaque, Unmodelled
 from .. import codegen
 from ..codegen import TemplateEval, Sym, Elem
-from ..cfg import CFG
+from ..cfg import CFG, expand_conds
 from ..layers import layers_of_var, layers_of_expr, index_of
 from ..astutil import argn, assigned_value
 from .common import (cfg_of, fkey, conds, has_cond, cond_texts, stmts_of, walk_body, call_tail, call_name,
@@ -551,6 +551,19 @@ def _single_value(fi, name):
     vals = [v for st, v, idx in assigned_value(fi.node, name) if idx is None and isinstance(st, ast.Assign)]
     alls = assigned_value(fi.node, name)
     return vals[0] if len(vals) == 1 and len(alls) == 1 else None
+
+
+def _deref(fi, e, depth=3):
+    """Follow single-assignment locals: the expression a name stands for."""
+    for _ in range(depth):
+        if isinstance(e, ast.Name):
+            v = _single_value(fi, e.id)
+            if v is None or e.id in fi.params():
+                break
+            e = v
+        else:
+            break
+    return e
 
 
 def _branches_resolved(fi, cfg):
@@ -1157,10 +1170,28 @@ def check_merge_order(rep, rule):
     muts = [c for c in walk_body(fi.node) if isinstance(c, ast.Call) and isinstance(c.func, ast.Attribute)
             and norm(c.func.value) == M and c.func.attr in ('append', 'insert', 'extend', 'sort', 'reverse', 'remove', 'pop')]
     loops = [s for s in stmts_of(fi.node) if isinstance(s, ast.For)]
-    ok = len(loops) == 1 and norm(loops[0].iter) in (ps[0], 'list(%s)' % ps[0]) and isinstance(loops[0].target, ast.Name)
-    if ok and norm(loops[0].iter) == ps[0]:
-        re_old = [s for s in stmts_of(fi.node) if isinstance(s, ast.Assign) and norm(s.targets[0]) == ps[0]]
-        ok = all(norm(s.value) == 'list(%s)' % ps[0] for s in re_old)
+
+    def is_old(e, depth=0):
+        """``e`` is the old list itself or an order-preserving copy of it (possibly under a local name)."""
+        if isinstance(e, ast.Call) and call_name(e) in ('list', 'tuple', 'iter') and len(e.args) == 1 and not e.keywords:
+            return is_old(e.args[0], depth)
+        if isinstance(e, ast.Starred):
+            return is_old(e.value, depth)
+        if isinstance(e, (ast.List, ast.Tuple)) and len(e.elts) == 1 and isinstance(e.elts[0], ast.Starred):
+            return is_old(e.elts[0].value, depth)
+        if isinstance(e, ast.Subscript) and isinstance(e.slice, ast.Slice) and e.slice.lower is None and e.slice.upper is None and e.slice.step is None:
+            return is_old(e.value, depth)
+        if isinstance(e, ast.Name):
+            vals = [v for st_, v, idx in assigned_value(fi.node, e.id)]
+            if e.id == ps[0]:
+                return all(is_old_rebind(v) for v in vals)
+            return depth < 3 and len(vals) == 1 and is_old(vals[0], depth + 1)
+        return False
+
+    def is_old_rebind(v):
+        # ``old = list(old)``
+        return isinstance(v, ast.Call) and call_name(v) in ('list', 'tuple') and len(v.args) == 1 and norm(v.args[0]) == ps[0]
+    ok = len(loops) == 1 and is_old(loops[0].iter) and isinstance(loops[0].target, ast.Name)
     rep.check(rule, fkey(fi, 'iterates old in order'), ok, 'the old (inner) list is walked in order' if ok else
               'merge does not iterate the old list in order', core, loops[0] if loops else fi.node)
     if not ok:
@@ -1176,11 +1207,24 @@ def check_merge_order(rep, rule):
               'an old middleware is appended (after all new ones) unless it is a unique type already present' if ok else
               'the only mutation of the merged list is not "append(mw) when not (mw.unique and mw in merged)": %s' %
               [short(m) for m in muts], core, muts[0] if muts else fi.node)
-    conts = [s for s in stmts_of(fi.node) if isinstance(s, ast.Continue)]
-    ok = bool(conts) and all(has_cond(conds(fi, c), is_dup, True) and has_cond(conds(fi, c), is_reord, True) for c in conts)
+    # an iteration that ends without appending (and without raising) is a dropped middleware: that may happen exactly
+    # for a reorderable unique duplicate.  The ends of an iteration are the predecessors of the loop head inside the body.
+    head = [n for n in cfg.nodes_of(loops[0]) if cfg.nodes[n].kind == 'head']
+    iter_nodes = [n.id for n in cfg.nodes if n.kind == 'iter' and n.stmt is loops[0]]
+    app_nodes = cfg.nodes_of_all([stmt_of(core, m) for m in muts]) if muts else []
+    in_body = cfg.reach(iter_nodes, avoid=head)
+    ends = [p_ for h in head for p_ in cfg.pred[h] if p_ in in_body]
+    drops = [p_ for p_ in ends if p_ not in app_nodes and not cfg.must_pass(app_nodes, iter_nodes, [p_])]
+    ok = bool(drops)
+    for p_ in drops:
+        cs = cfg.conds_at(p_)
+        nd = cfg.nodes[p_]
+        if nd.kind == 'branch':
+            cs = cs + cfg._expand_named(expand_conds([(nd.test, nd.pol)]), p_)
+        ok = ok and has_cond(cs, is_dup, True) and has_cond(cs, is_reord, True)
     rep.check(rule, fkey(fi, 'unique duplicate dropped'), ok,
               'a reorderable unique duplicate is dropped, keeping the outer occurrence' if ok else
-              'duplicates are skipped under the wrong condition', core, conts[0] if conts else fi.node)
+              'duplicates are skipped under the wrong condition', core, loops[0])
     rz = raises_of(fi)
     ok = bool(rz) and all(raise_type(r) == 'ValueError' and has_cond(conds(fi, r), is_dup, True) and has_cond(conds(fi, r), is_reord, False)
                           for r in rz)
@@ -1209,8 +1253,17 @@ def check_merge_order(rep, rule):
               'merge_middlewares is called with (old=%s, new=%s): the binding application\'s middlewares must be the new (outer) list' % (o_old, o_new),
               route, c)
     st = stmt_of(route, c)
-    ok = isinstance(st, ast.Assign) and norm(st.targets[0]) == 'self.middlewares' and \
-        (st.value is c or (isinstance(st.value, ast.Call) and call_name(st.value) in ('tuple', 'list') and st.value.args[0] is c))
+    sm = [s_ for s_ in stmts_of(bi.node) if isinstance(s_, ast.Assign) and any(norm(t) == 'self.middlewares' for t in s_.targets)]
+    ok = len(sm) == 1
+    if ok:
+        v = sm[0].value
+        if isinstance(v, ast.Call) and call_name(v) in ('tuple', 'list') and len(v.args) == 1:
+            v = v.args[0]
+        v = _deref(bi, v)
+        if isinstance(v, ast.Call) and call_name(v) in ('tuple', 'list') and len(v.args) == 1:
+            v = _deref(bi, v.args[0])
+        ok = v is c
+        st = sm[0]
     rep.check(rule, fkey(bi, 'self.middlewares'), ok, 'the merged list (order preserved) becomes self.middlewares' if ok else
               'self.middlewares is not the merged list as returned', route, st)
 
@@ -1244,9 +1297,12 @@ def check_inject(rep, r_decl, r_layers):
                         if isinstance(n, (ast.ListComp, ast.DictComp, ast.GeneratorExp)):
                             for g in n.generators:
                                 for i in g.ifs:
+                                    cmp_ = _deref(fi, i.comparators[0]) if isinstance(i, ast.Compare) else None
+                                    while isinstance(cmp_, ast.Call) and call_name(cmp_) in ('set', 'frozenset', 'list', 'tuple') and len(cmp_.args) == 1:
+                                        cmp_ = _deref(fi, cmp_.args[0])
                                     if isinstance(i, ast.Compare) and isinstance(i.ops[0], ast.In) and \
-                                            isinstance(i.comparators[0], ast.Call) and call_tail(i.comparators[0]) == 'get_arg_names' \
-                                            and not i.comparators[0].args and not i.comparators[0].keywords:
+                                            isinstance(cmp_, ast.Call) and call_tail(cmp_) == 'get_arg_names' \
+                                            and not cmp_.args and not cmp_.keywords:
                                         filtered = True
                                         how = 'only names in fb.get_arg_names() are passed'
         rep.check(r_decl, fkey(fi, c), ok and filtered,
@@ -1320,7 +1376,7 @@ def check_request_layers(rep, rule, rule_identity=None):
             bad = [l.text for l in ls if not plain(l)]
             rep.check(rule_identity, fkey(fi, 'identity'), not bad, 'values are moved between dicts, never passed through a call' if not bad else
                       'resource/parameter values pass through %s before injection (copied or transformed, identity lost)' % bad, route, inj[0])
-        first = norm(inj[0].args[0])
+        first = norm(_deref(fi, inj[0].args[0]))
         ok = first == ('self._execute' if q.endswith('execute') else 'self.render_error')
         rep.check(rule, fkey(fi, 'injected callable'), ok, 'injects into %s' % first if ok else 'injects into %s' % first, route, inj[0])
     # -- Application.dispatch
@@ -1419,6 +1475,8 @@ def check_request_layers(rep, rule, rule_identity=None):
               'BoundRoute resources are not layered app < route: %s' % texts, route, bi.node)
     if rule_identity:
         fresh = [s for s in stmts_of(bi.node) if isinstance(s, ast.Assign) and norm(s.targets[0]) == 'self.resources']
-        ok = len(fresh) == 1 and isinstance(fresh[0].value, ast.Call) and call_name(fresh[0].value) == 'dict'
+        val = _deref(bi, fresh[0].value) if len(fresh) == 1 else None      # a dict built here, directly or under a local name
+        ok = len(fresh) == 1 and ((isinstance(val, ast.Call) and call_name(val) == 'dict') or
+                                  isinstance(val, ast.Dict))
         rep.check(rule_identity, fkey(bi, 'resources container'), ok, 'the bound route keeps its own dict (values by identity)' if ok else
                   'self.resources is not a fresh dict()', route, bi.node)
